@@ -10,7 +10,8 @@
 //!
 //!   body   ::= ( `let x = x.as_ref();` | `let v = sum;` | `if cond { return Err(E); }` )*  tail
 //!   tail   ::= `if cond { branch } else tail` | `{ branch }` | branch
-//!   branch ::= effect* ( `Ok(..)` | `Err(E)` )            (effects only before `Ok`)
+//!   branch ::= effect* ( `Ok(..)` | `Err(E)` ) | `None` | `Some(&self.shards[sum].as_flattened()[..sum])`
+//!              (effects only before `Ok`; early `if cond { return None; }` is accepted as well)
 //!   cond   ::= sum (== | != | < | <= | > | >=) sum | `self.received[sum]`
 //!   sum    ::= atom | sum + atom
 //!   atom   ::= `self.f` | ident | `ident.len()`
@@ -201,6 +202,42 @@ impl<'a> G<'a> {
         Ok(Some(format!("GErr ({} {})", variant, args.join(" "))))
     }
 
+    /// `None` / `Some(&self.shards[pos].as_flattened()[..len])`
+    fn opt_value(&mut self, e: &Expr) -> R<Option<String>> {
+        if path_ident(e).as_deref() == Some("None") {
+            return Ok(Some("GNone".to_string()));
+        }
+        let c = match e {
+            Expr::Call(c) if path_ident(&c.func).as_deref() == Some("Some") && c.args.len() == 1 => c,
+            _ => return Ok(None),
+        };
+        // &  self.shards[pos] .as_flattened() [..len]
+        let inner = match &c.args[0] {
+            Expr::Reference(r) if r.mutability.is_none() => &*r.expr,
+            _ => return self.un("`Some(..)` whose argument is not a shared slice of a shard"),
+        };
+        let (base, range) = match inner {
+            Expr::Index(ix) => (&*ix.expr, &*ix.index),
+            _ => return self.un("`Some(..)` whose argument is not a shared slice of a shard"),
+        };
+        let len = match range {
+            Expr::Range(r) if r.start.is_none() && matches!(r.limits, syn::RangeLimits::HalfOpen(_)) => match &r.end {
+                Some(e) => self.sum(e)?,
+                None => return self.un("open range"),
+            },
+            _ => return self.un("slice that is not `[..len]`"),
+        };
+        let shard = match base {
+            Expr::MethodCall(m) if m.method == "as_flattened" && m.args.is_empty() => &*m.receiver,
+            _ => return self.un("slice of something that is not `shard.as_flattened()`"),
+        };
+        let pos = match shard {
+            Expr::Index(ix) if self_field(&ix.expr).as_deref() == Some("shards") => self.sum(&ix.index)?,
+            _ => return self.un("shard that is not `self.shards[pos]`"),
+        };
+        Ok(Some(format!("GSome {} {}", pos, len)))
+    }
+
     fn is_ok(e: &Expr) -> bool {
         if let Expr::Call(c) = e {
             return path_ident(&c.func).as_deref() == Some("Ok") && c.args.len() == 1;
@@ -260,10 +297,15 @@ impl<'a> G<'a> {
             }
             Expr::Block(b) => self.branch(&b.block.stmts),
             Expr::Paren(p) => self.tail(&p.expr),
-            _ => match self.err_value(e)? {
-                Some(v) => Ok(v),
-                None => self.un("tail expression outside the guard grammar"),
-            },
+            _ => {
+                if let Some(v) = self.err_value(e)? {
+                    return Ok(v);
+                }
+                match self.opt_value(e)? {
+                    Some(v) => Ok(v),
+                    None => self.un("tail expression outside the guard grammar"),
+                }
+            }
         }
     }
 
@@ -311,7 +353,10 @@ impl<'a> G<'a> {
                     let c = self.cond(&i.cond)?;
                     let v = match self.err_value(val)? {
                         Some(v) => v,
-                        None => return self.un("early return of something other than `Err(Error::..)`"),
+                        None => match self.opt_value(val)? {
+                            Some(v) => v,
+                            None => return self.un("early return of something other than `Err(Error::..)` or `None`"),
+                        },
                     };
                     pre.push(format!("if {} then {} else", c, v));
                 }
@@ -332,6 +377,8 @@ const JOBS: &[(&str, &str, &str, &str)] = &[
     ("rate/decoder_work.rs", "DecoderWork", "add_original_shard", "gen_dec_add_original"),
     ("rate/decoder_work.rs", "DecoderWork", "add_recovery_shard", "gen_dec_add_recovery"),
     ("rate/decoder_work.rs", "DecoderWork", "decode_begin", "gen_dec_begin"),
+    ("rate/encoder_work.rs", "EncoderWork", "recovery", "gen_enc_recovery"),
+    ("rate/decoder_work.rs", "DecoderWork", "restored_original", "gen_dec_restored"),
 ];
 
 pub fn gen_guards(cr: &Crate, ctors: &HashMap<String, Vec<String>>) -> R<String> {
@@ -341,7 +388,8 @@ pub fn gen_guards(cr: &Crate, ctors: &HashMap<String, Vec<String>>) -> R<String>
          GOk k = it takes the k-th branch (in source order) that ends in Ok(..). Arguments, in this order:\n   \
          the usize fields of self that are read (alphabetical), the numeric parameters, the lengths of the\n   \
          slice parameters, and the received bitmap if it is read. *)\n\
-         Inductive goutcome := GErr (e : error) | GOk (k : N).\n",
+         Inductive goutcome := GErr (e : error) | GOk (k : N) | GNone | GSome (pos len : N).\n\
+         (* GNone / GSome pos len: an accessor returns None / the first len bytes of the shard at work position pos *)\n",
     );
     for (rel, ty, name, coq) in JOBS {
         let file = cr.file(rel)?;
